@@ -240,8 +240,25 @@ sys.path.insert(0, sys.argv[1])
 import tlib
 obj = tlib.Cls()
 VAL = {"I": [5, 0, -3, 12], "F": [1.5, 2.0, -0.25], "B": [True, False], "S": ["abc", "x", ""]}
+import collections
+def decode(v):
+    # iterables that are neither list nor tuple (JSON cannot carry them): {"__iter__": kind, "items": [...]}
+    if isinstance(v, dict) and "__iter__" in v:
+        items = v["items"]
+        k = v["__iter__"]
+        if k == "range":
+            return range(*items)
+        if k == "deque":
+            return collections.deque(items)
+        if k == "gen":
+            return (x for x in items)
+        if k == "set1":
+            return set(items)
+    return v
 for line in sys.stdin:
     q = json.loads(line)
+    q["pos"] = [decode(v) for v in q["pos"]]
+    q["kw"] = {k: decode(v) for k, v in q["kw"].items()}
     f = getattr(obj, q["name"]) if q["method"] else getattr(tlib, q["name"])
     args = list(q["pos"]) + list(q["kw"].values())
     before = [sys.getrefcount(a) for a in args]
@@ -569,7 +586,14 @@ def run(ctx):
                  ("sum_u16", [[1, 2, 65535]], {}, ["LOG sum_u16 3 65538", "RET 41"]), ("sum_u16", [[1, "two", 3]], {}, ["EXC"]),
                  ("sum_u16", [], {0: [None]}, ["EXC"]), ("sum_u8", [[255, 1]], {}, ["LOG sum_u8 2 256", "RET 41"]),
                  ("sum_u8", [[7, [], 3]], {}, ["EXC"]), ("sum_d", [[0.5, 2]], {}, ["LOG sum_d 2 2.5", "RET 1.25"]),
-                 ("sum_d", [[0.5, "x"]], {}, ["EXC"]), ("vsum", [[1, "two", 3]], {}, ["EXC"])]
+                 ("sum_d", [[0.5, "x"]], {}, ["EXC"]), ("vsum", [[1, "two", 3]], {}, ["EXC"]),
+                 # any iterable is a sequence argument: a range, a deque, a generator, a one-element set and a tuple deliver their items
+                 ("vsum", [{"__iter__": "range", "items": [2, 5]}], {}, ["LOG vsum 3 9 3 7", "RET 41"]),
+                 ("sum_u8", [{"__iter__": "range", "items": [3]}], {}, ["LOG sum_u8 3 3", "RET 41"]),
+                 ("sum_u16", [{"__iter__": "deque", "items": [7, 8, 9]}], {}, ["LOG sum_u16 3 24", "RET 41"]),
+                 ("sum_d", [{"__iter__": "gen", "items": [0.5, 1.5]}], {}, ["LOG sum_d 2 2", "RET 1.25"]),
+                 ("vsum", [{"__iter__": "set1", "items": [6]}, ], {2: 1}, ["LOG vsum 1 6 1 1", "RET 41"]),
+                 ("sum_u16", [], {0: {"__iter__": "range", "items": [10, 13]}}, ["LOG sum_u16 3 33", "RET 41"])]
         inp = "\n".join(json.dumps({"name": n, "method": m, "pos": pos, "kw": {("zz" if k == "zz" else "a%d" % k): v for k, v in kw.items()}})
                         for (n, m, _, pos, kw, _) in queries + [(n_, False, None, p_, k_, "extra") for (n_, p_, k_, _) in extra]) + "\n"
         p = subprocess.run([vlib.PY, os.path.join(d, "runner.py"), d], input=inp, stdout=subprocess.PIPE, stderr=subprocess.PIPE,
